@@ -97,3 +97,39 @@ func TestEncodeSequence(t *testing.T) {
 		checkSequence(t, "TestEncodeSequence", vals)
 	})
 }
+
+// TestNestingBoundary: texts nested 9990..10010 levels deep (encoding/json's
+// limit is 10000), arrays and objects mixed, scalar or empty container
+// innermost, optionally with siblings on the way: accept/reject and the
+// decoded data must agree with encoding/json on both sides of the limit.
+func TestNestingBoundary(t *testing.T) {
+	rapid.Check(t, func(t *rapid.T) {
+		depth := 9990 + rapid.IntRange(0, 20).Draw(t, "depthOffset")
+		pattern := rapid.SampledFrom([]string{"a", "o", "ao", "aao", "oa"}).Draw(t, "pattern")
+		inner := rapid.SampledFrom([]string{"1", `"s"`, "[]", "{}", "null", "[1,2]", `{"z":0}`}).Draw(t, "inner")
+		sibling := rapid.IntRange(0, 3).Draw(t, "sibling") == 0
+		var open, closeRev []string
+		for i := 0; i < depth; i++ {
+			if pattern[i%len(pattern)] == 'a' {
+				if sibling && i%1000 == 7 {
+					open = append(open, "[0,")
+				} else {
+					open = append(open, "[")
+				}
+				closeRev = append(closeRev, "]")
+			} else {
+				open = append(open, `{"k":`)
+				closeRev = append(closeRev, "}")
+			}
+		}
+		var sb []byte
+		for _, o := range open {
+			sb = append(sb, o...)
+		}
+		sb = append(sb, inner...)
+		for i := len(closeRev) - 1; i >= 0; i-- {
+			sb = append(sb, closeRev[i]...)
+		}
+		checkDecode(t, "TestNestingBoundary", sb, "nesting-boundary", false, false)
+	})
+}
